@@ -396,7 +396,9 @@ class FnSplicer:
                 if [t.text for t in toks[i:i + len(want)]] == want and not excluded(i):
                     hits.append(i)
                 i += 1
-            if len(hits) != tr_expected:
+            if tr_expected == '*':
+                pass        # a rewrite that is applied wherever its shape occurs (possibly nowhere)
+            elif len(hits) != tr_expected:
                 raise ExtractError('lost anchor: `%s` occurs %d times in %s' % (pattern, len(hits), tag))
             for h in hits:
                 self.segs.rewrite(toks[h].start, toks[h + len(want) - 1].end, replacement, 'tokens-to-helper')
